@@ -24,14 +24,16 @@ from harness.c10 import cfg_op, enc_rec, fclose, float_mag, gen_pairs, gen_srr, 
 
 NAMES = ["A", "B", "C"]
 FLAT_REL = 1e-12
-CFG_MAXDEN = 30  # config-only stream: denominators 1..30 (no reconstruction, so the lcm^2 growth does not matter)
+CFG_MAXDEN = 60  # config-only stream: denominators 1..60 (no reconstruction, so the lcm^2 growth does not matter)
 CFG_BATCH = 250  # offset lists per enumerated config-only case
 
 
-DTYPES = {"f8": "<f8", "f4": "<f4", "i8": "<i8", "i4": "<i4", "u2": "<u2"}  # sample dtypes of a stack (case key -> dtype.str)
+# sample dtypes of a stack (case key -> dtype.str); capital keys: big-endian
+DTYPES = {"f8": "<f8", "f4": "<f4", "i8": "<i8", "i4": "<i4", "u2": "<u2", "F8": ">f8", "F4": ">f4", "I4": ">i4"}
 # bound on |token| for which token * scale (scale 1, 1/2, 1/4) is held exactly by a field of that dtype, with room for the exact
 # sum of up to 16 layers (np.mean of float32 layers adds in float32)
-DTYPE_LIMIT = {"<f8": 2**48, "<f4": 2**19, "<i8": 2**58, "<i4": 2**27, "<u2": 2**12}
+DTYPE_LIMIT = {"<f8": 2**48, "<f4": 2**19, "<i8": 2**58, "<i4": 2**27, "<u2": 2**12, ">f8": 2**48, ">f4": 2**19, ">i4": 2**27}
+LAYOUTS = ("F", "strided", "T")
 MAX_LAYERS = 16
 FLAT_REL32 = 2.0**-22  # np.mean of float32 layers is a float32
 SCALES = (1, 0.5, 0.25)
@@ -136,6 +138,21 @@ def make_layer(fields, rows, cols, data, fscale):
         sc = field_scale(dt, fscale)
         col = [px[k] * sc for px in data]
         a[n] = np.array(col, dtype=np.dtype(dt) if kind_of(dt) != "f" else np.float64).reshape(rows, cols)
+    return a
+
+
+def relayout(a, how):
+    """the same layer in another memory layout: Fortran order, a strided window of a larger array, the transpose of a
+    C-ordered transposed copy (all writeable views / arrays with the same dtype and values)"""
+    if how == "F":
+        return np.asfortranarray(a)
+    if how == "strided":
+        big = np.zeros((2 * a.shape[0] + 1, a.shape[1] + 3), dtype=a.dtype)
+        view = big[1::2, 2:2 + a.shape[1]]
+        view[...] = a
+        return view
+    if how == "T":
+        return np.ascontiguousarray(a.T).T
     return a
 
 
@@ -390,7 +407,7 @@ class C09(Prop):
     def gen_ctor(self, rng, case):
         """how the object is made: SRRLaser(...) mostly, SRRLaser.from_list (float64 stacks) or SRRLaser.from_lasers"""
         r = rng.random()
-        if r < 0.08 and case.get("dtype", "f8") == "f8":
+        if r < 0.08 and case.get("dtype", "f8") == "f8" and "dtypes" not in case:
             case["ctor"] = "from_list"
         elif r < 0.16:
             case["ctor"] = "from_lasers"
@@ -463,15 +480,23 @@ class C09(Prop):
     def gen_payload(self, rng, case, plain=0.6):
         """the sample dtype and payload of a stack: float64 integers mostly; float32 / integer dtypes, fractional payloads
         (token / 2, token / 4), tokens beyond 2^40 (float64, int64), negative tokens"""
+        if rng.random() < 0.2:
+            case["layout"] = rng.choice(LAYOUTS)  # the layers' memory layout: Fortran order / strided window / transposed base
         if rng.random() < plain:
             return
-        dt = rng.choice(["f8", "f8", "f8", "f4", "f4", "i8", "i4", "u2"])
+        if rng.random() < 0.25:
+            # one dtype per field (mixed kinds, sizes and byte orders)
+            case["dtypes"] = [rng.choice(["f8", "f4", "i8", "i4", "u2", "F8", "F4", "I4"]) for _ in range(3)]
+            if rng.random() < 0.5 and any(k.lower() in ("f8", "f4") for k in case["dtypes"]):
+                case["scale"] = rng.choice([0.5, 0.25])
+            return
+        dt = rng.choice(["f8", "f8", "f8", "f4", "f4", "i8", "i4", "u2", "F8", "F4", "I4"])
         case["dtype"] = dt
-        if dt in ("f8", "f4") and rng.random() < 0.6:
+        if dt in ("f8", "f4", "F8", "F4") and rng.random() < 0.6:
             case["scale"] = rng.choice([0.5, 0.25])
-        if dt in ("f8", "i8") and rng.random() < 0.4:
+        if dt in ("f8", "i8", "F8") and rng.random() < 0.4:
             case["base"] = rng.choice([2**40 + 1, -(2**40), 2**33 + 5])
-        elif dt in ("f4", "i4") and rng.random() < 0.2:
+        elif dt in ("f4", "i4", "F4", "I4") and rng.random() < 0.2:
             case["base"] = -4000
 
     def gen_history(self, rng):
@@ -503,7 +528,7 @@ class C09(Prop):
         steps = []
         for _ in range(rng.choice([1, 1, 1, 1, 1, 2, 2, 2, 3])):
             op = rng.choice(["replace", "edit", "edit", "config", "config", "rename", "rename", "add", "add", "remove", "remove",
-                             "setdata", "setdata", "setdata", "append", "pop", "params", "scribble", "cal"])
+                             "setdata", "setdata", "setdata", "append", "pop", "params", "params", "params", "scribble", "cal"])
             i = rng.randrange(n)
             if op == "remove" and len(names) < 2:
                 op = "add"
@@ -548,8 +573,8 @@ class C09(Prop):
                 stp = {"op": "setdata", "via": rng.choice(["list", "items"])}
                 if what == "dtype":
                     cur_dt = case.get("dtype", "f8")
-                    stp["dtype"] = rng.choice([d for d in ("f8", "f8", "f4", "i8", "i4", "u2") if d != cur_dt])
-                    stp["scale"] = rng.choice([1, 0.5, 0.25]) if stp["dtype"] in ("f8", "f4") else 1
+                    stp["dtype"] = rng.choice([d for d in ("f8", "f8", "f4", "i8", "i4", "u2", "F8", "I4") if d != cur_dt])
+                    stp["scale"] = rng.choice([1, 0.5, 0.25]) if stp["dtype"] in ("f8", "f4", "F8") else 1
                 elif what == "names":
                     k = rng.choice([len(names), len(names), 1, 2, 3])
                     pool = [x for x in ["P", "Q", "R"] + names if True]
@@ -590,9 +615,24 @@ class C09(Prop):
                 if not cands:
                     steps.append({"op": "scribble"})
                     continue
-                M = rng.choice(cands)
-                sp, v, t = int_mag_triple(rng, M)
-                steps.append({"op": "params", "spotsize": sp, "speed": v, "scantime": t, "mag": M})
+                M2 = rng.choice(cands)
+                cur3 = next(([x["spotsize"], x["speed"], x["scantime"]] for x in reversed(steps) if x["op"] == "params"),
+                            [case["spotsize"], case["speed"], case["scantime"]])
+                stp = None
+                if rng.random() < 0.6:
+                    # ONE attribute assigned (spot size scaled, or speed / scan time divided) so that the float magnification is M2
+                    for only in rng.sample(["spotsize", "speed", "scantime"], 3):
+                        c3 = list(cur3)
+                        j = ["spotsize", "speed", "scantime"].index(only)
+                        c3[j] = cur3[j] * M2 / M if j == 0 else cur3[j] * M / M2
+                        if c3[j] > 0 and c3[0] / (c3[1] * c3[2]) == float(M2):
+                            stp = {"op": "params", "spotsize": c3[0], "speed": c3[1], "scantime": c3[2], "mag": M2, "only": only}
+                            break
+                if stp is None:
+                    sp, v, t = int_mag_triple(rng, M2)
+                    stp = {"op": "params", "spotsize": sp, "speed": v, "scantime": t, "mag": M2}
+                M = M2
+                steps.append(stp)
             else:
                 w2 = rng.randint(0, w)  # not more warm-up than before: the stack stays long enough
                 pairs2 = pairs_cur
@@ -705,6 +745,26 @@ class C09(Prop):
         yield {**hcal, "steps": [{"op": "setdata", "names": ["P", "A"], "via": "list"}], "creads_at": "mid"}
         yield {**hcal, "steps": [{"op": "scribble"}], "ctor": "from_list"}
         yield {**hcal, "steps": [{"op": "replace", "layer": 1}], "ctor": "from_lasers"}
+        # ---- ONE raster attribute of the config assigned between two reconstructions (derived quantities must follow)
+        p2 = {"spotsize": 70.0, "speed": 140.0, "scantime": 0.25}
+        yield {**hbase, "steps": [{"op": "params", **p2, "spotsize": 35.0, "mag": 1, "only": "spotsize"}]}
+        yield {**hbase, "steps": [{"op": "params", **p2, "speed": 280.0, "mag": 1, "only": "speed"}]}
+        yield {**hbase, "steps": [{"op": "params", **p2, "scantime": 0.5, "mag": 1, "only": "scantime"}]}
+        yield {**hbase, "shapes": [[3, 9], [2, 13]], "steps": [{"op": "params", **p2, "spotsize": 140.0, "mag": 4, "only": "spotsize"}]}
+        yield {**hbase, "pairs": [[0, 2], [1, 2]], "steps": [
+            {"op": "params", **p2, "speed": 280.0, "mag": 1, "only": "speed", "obs": True},
+            {"op": "config", "via": "setter", "pairs": [[0, 3], [2, 3]], "warmup": 0.25, "obs": True},
+            {"op": "params", "spotsize": 140.0, "speed": 280.0, "scantime": 0.25, "mag": 2, "only": "spotsize"}]}
+        # ---- memory layouts of the layers, one dtype per field, big-endian fields
+        for lay in LAYOUTS:
+            yield {**base, "spotsize": 70.0, "mag": 2, "warmup": 0.25, "pairs": [[1, 3], [1, 2]], "shapes": [[3, 7], [2, 9]], "n": 3,
+                   "nel": 2, "element": 0, "layout": lay}
+        yield {**hbase, "layout": "strided", "steps": [{"op": "edit", "layer": 1, "cells": [[1, 2]]}]}
+        yield {**hbase, "layout": "F", "cal": [[1.0, 2.0], None], "creads": [{"element": None, "calibrate": True, "flat": False, "layer": 1}],
+               "steps": [{"op": "scribble"}]}
+        yield {**base, "spotsize": 70.0, "mag": 2, "warmup": 0.25, "pairs": [[1, 3], [1, 2]], "shapes": [[3, 7], [2, 9]], "n": 3,
+               "nel": 3, "element": 2, "dtypes": ["F8", "i4", "f4"], "scale": 0.5}
+        yield {**hbase, "dtypes": ["I4", "F4"], "steps": [{"op": "add", "name": "D", "dtype": "F8"}]}
         # ---- sample dtypes and payloads of a fresh stack
         for dt, extra in (("f4", {"scale": 0.25}), ("i8", {"base": -(2**40)}), ("i4", {}), ("u2", {}), ("f8", {"scale": 0.5, "base": 2**40 + 1})):
             yield {**base, "spotsize": 70.0, "mag": 2, "warmup": 0.25, "pairs": [[1, 3], [1, 2]], "shapes": [[3, 7], [2, 9]], "n": 3,
@@ -733,11 +793,14 @@ class C09(Prop):
     def case_fields(self, case):
         """the fields [name, dtype.str] and the float payload scale of the stack a case starts with"""
         names = case.get("names") or NAMES[:case["nel"]]
-        dt = DTYPES.get(case.get("dtype", "f8"))
+        keys = case.get("dtypes") or [case.get("dtype", "f8")]  # one dtype for all fields, or one per field (cycled)
         fscale = case.get("scale", 1)
-        ok = (dt is not None and fscale in SCALES and isinstance(names, list) and len(names) >= 1 and len(set(names)) == len(names)
-              and all(isinstance(n, str) and n.isidentifier() for n in names))
-        return [[n, dt] for n in names], fscale, ok
+        ok = (isinstance(keys, list) and keys and all(isinstance(k, str) and k in DTYPES for k in keys) and fscale in SCALES
+              and isinstance(names, list) and len(names) >= 1 and len(set(names)) == len(names)
+              and all(isinstance(n, str) and n.isidentifier() for n in names) and case.get("layout") in (None,) + LAYOUTS)
+        if not ok:
+            return [[n, None] for n in names] if isinstance(names, list) else [], fscale, False
+        return [[n, DTYPES[keys[j % len(keys)]]] for j, n in enumerate(names)], fscale, ok
 
     def enc_stack(self, shapes, nfields, start):
         """fresh tokens for a stack of the given layer shapes: every sample of every field a number no other sample has"""
@@ -757,7 +820,7 @@ class C09(Prop):
         enc, fresh = self.enc_stack(stack_shapes(case), len(fields), base)
         if not payload_ok(fields, enc, fscale):
             return None, enc, fields, fscale, fresh
-        layers = [make_layer(fields, L["rows"], L["cols"], L["data"], fscale) for L in enc]
+        layers = [relayout(make_layer(fields, L["rows"], L["cols"], L["data"], fscale), case.get("layout")) for L in enc]
         return layers, enc, fields, fscale, max(abs(base), abs(fresh)) + 1
 
     def evaluate(self, case, ctx):
@@ -901,7 +964,7 @@ class C09(Prop):
         names = [f[0] for f in fields]
         scales = [field_scale(f[1], st["fscale"]) for f in fields]
         kinds = [kind_of(f[1]) for f in fields]
-        rels = [FLAT_REL32 if f[1] == "<f4" else FLAT_REL for f in fields]
+        rels = [FLAT_REL32 if f[1].endswith("f4") else FLAT_REL for f in fields]
         nel, n = len(fields), len(rep["stack"])
         e = case["element"] % nel
         if not payload_ok(fields, rep["stack"], st["fscale"]):
@@ -1109,6 +1172,10 @@ class C09(Prop):
         def same(a, b):
             return core.canon(a) == core.canon(b)
 
+        def native(descr):
+            """field list with the byte-order mark dropped: which byte order the RESULT of a reconstruction has is nobody's clause"""
+            return [[f[0], f[1].lstrip("<>=|")] for f in descr] if isinstance(descr, list) else descr
+
         def agrees(o, v):
             """a configuration the implementation holds against the model's (exact floats; errors by class)"""
             if not isinstance(o, dict) or not isinstance(v, dict):
@@ -1132,7 +1199,7 @@ class C09(Prop):
         model_ok = (valid == (rep["valid"] is True) and recon_ok(model["recon"], rep["flat_model"])
                     and same(impl["layers"], model["layers"]) and same(impl["layers_flat"], model["layers_flat"])
                     and same(impl["layers_element"], model["layers_element"]) and same(impl["stack"], model["stack"])
-                    and (not (valid and "data" in impl.get("recon", {})) or same(impl["recon_fields"], fields))
+                    and (not (valid and "data" in impl.get("recon", {})) or same(native(impl["recon_fields"]), native(fields)))
                     and agrees(impl["config"], model["config"]) and agrees(impl["roundtrip"], model["roundtrip"]))
         if arrays:
             model_ok = model_ok and same(impl["array"], model["array"]) and agrees(impl["from_raster_array"], model["from_raster_array"])
@@ -1181,6 +1248,10 @@ class C09(Prop):
                     feats.add("dtype:mixed-fields")
             if st.get("ctor", "init") != "init":
                 feats.add("ctor:" + st["ctor"])
+            if case.get("layout") and st.get("ctor", "init") != "from_list" and not st["sops"]:
+                feats.add("layout:" + case["layout"])
+            if any(d.startswith(">") for d in dts):
+                feats.add("dtype:big-endian")
             if n > 5:
                 feats.add("layers>5")
             if max(l0, l1) > 6:
@@ -1442,7 +1513,17 @@ class C09(Prop):
             sp, v, t, M2 = float(stp["spotsize"]), float(stp["speed"]), float(stp["scantime"]), int(stp["mag"])
             if not (sp > 0 and v > 0 and t > 0 and M2 >= 1 and sp / (v * t) == float(M2)):
                 return "excluded"
-            laser.config.spotsize, laser.config.speed, laser.config.scantime = sp, v, t
+            only = stp.get("only")
+            if only is not None:
+                # a single attribute assigned; the other two must be what the object holds (else the step means nothing)
+                now3 = case2.get("params_now") or [case2["spotsize"], case2["speed"], case2["scantime"]]
+                if only not in ("spotsize", "speed", "scantime") or any(
+                        float(a) != float(b) for k3, (a, b) in enumerate(zip(now3, [sp, v, t])) if ["spotsize", "speed", "scantime"][k3] != only):
+                    return "excluded"
+                setattr(laser.config, only, {"spotsize": sp, "speed": v, "scantime": t}[only])
+                hfeats.add("history:config-one-attribute:" + only)
+            else:
+                laser.config.spotsize, laser.config.speed, laser.config.scantime = sp, v, t
             case2["ops"] = case2["ops"] + [cfg_op("params", spotsize=sp, speed=v, scantime=t)]
             if M2 != case2["mag"]:
                 hfeats.add("history:magnification-change")
